@@ -154,9 +154,13 @@ def check_segment(np, gcd, g, p0, p1, a0=None, t0=None, a1=None, t1=None):
         c04.append(f'pieces add up to {ssum!r} of the segment\'s value (allowed great-circle excess {excess:.3e})')
     # attribution (C05)
     if total == 0:
-        # a repeated point has no length to share out: only the cell of its single piece is checked here (the value is C04's business)
-        if not code or code[0][0] not in pieces[0][0] or code[0][1] not in pieces[0][1] or any(abs(c[2]) > 1e-12 for c in code[1:]):
-            c05.append(f'repeated point attributed to {[(c[0], c[1]) for c in code]}; it lies in lat cells {pieces[0][0]} x lon cells {pieces[0][1]}')
+        # a segment of zero length (a repeated point; two points on a pole) has no length to share out: every piece that
+        # receives something must lie in a cell the map line touches (how the value is split among them is C04's business)
+        lat_ok = set(i for o in pieces for i in o[0])
+        lon_ok = set(j for o in pieces for j in o[1])
+        off = [(c[0], c[1]) for c in code if abs(c[2]) > 1e-12 and (c[0] not in lat_ok or c[1] not in lon_ok)]
+        if not code or off:
+            c05.append(f'zero-length segment: pieces attributed to {off or "nothing"}; its map line touches lat cells {sorted(lat_ok)} x lon cells {sorted(lon_ok)}')
     elif len(big_code) != len(big_or):
         c05.append(f'{len(big_code)} pieces receive a share, the path crosses {len(big_or)} cells: code {[(c[0], c[1], round(c[2], 6)) for c in code]}, '
                    f'expected {[(o[0], o[1], round(o[2], 6)) for o in pieces]}')
@@ -289,6 +293,20 @@ def run_families(payload):
                 p1 = (p1[0], p0[1])
             a, b, _ = check_segment(np, gcd, gg, p0, p1)
             note(f'{nlat} x {nlon} grid, segment ' + fmt(p0) + ' -> ' + fmt(p1), a, b)
+    # 3b. the poles: zero-length segments that still sweep longitude cells, and segments ending on a pole
+    if only in (None, 'poles'):
+        gp = make_grid(np, Gridder, 6, 12, -90, 90, -180, 180)
+        for lat in (90.0,):       # the south pole lies on the grid's lowest line (outside the bound: index -1 convention)
+            for lo0, lo1 in ((10.5, 13.5), (10.5, 100.5), (-170.5, -20.5), (40.0, 40.0), (33.0, -12.0)):
+                cases += 1
+                a, b, _ = check_segment(np, gcd, gp, (rad(lat), rad(lo0)), (rad(lat), rad(lo1)))
+                note(f'pole segment ({lat}, {lo0}) -> ({lat}, {lo1}) deg', a, b)
+            for lo0, la1, lo1 in ((10.0, 60.0, 10.0), (10.0, 45.0, 70.0), (-100.0, 80.0, -100.0)):
+                cases += 1
+                p0, p1 = (rad(lat), rad(lo0)), (rad(la1 if lat > 0 else -la1), rad(lo1))
+                for u, v in ((p0, p1), (p1, p0)):
+                    a, b, _ = check_segment(np, gcd, gp, u, v)
+                    note('segment touching a pole ' + fmt(u) + ' -> ' + fmt(v), a, b)
     # 4. one antimeridian crossing on a global 4 x 8 grid, both directions, with an altitude axis
     if only in (None, 'crossing'):
         gx = make_grid(np, Gridder, 4, 8, -40, 40, -180, 180, alts=[0.0, 3000.0, 9000.0, 13000.0], times=[0.0, 100.0, 200.0, 400.0])
@@ -310,5 +328,5 @@ def run_families(payload):
             note('repeated point on the antimeridian', a, b)
     return dict(cases=cases, c04=c04, c05=c05,
                 bound='4 x 4 grid quarter-cell lattice segments (2.7e3 sampled / all 5.1e4), 250 / 6000 lattice paths of 3..4 points with altitude and time axes, '
-                      '400 / 20000 random segments on 1..7 x 1..7 grids, 500 / all 1800 antimeridian crossings on a global 4 x 8 grid',
+                      '400 / 20000 random segments on 1..7 x 1..7 grids, segments on and into the poles of a global 6 x 12 grid, 500 / all 1800 antimeridian crossings on a global 4 x 8 grid',
                 rule='points on interior grid lines, corners, along-line, westward / southward, repeated points, one antimeridian crossing; points on the outermost grid lines excluded')
